@@ -1,3 +1,5 @@
+//go:build !skip_c13
+
 package main
 
 // C13 — concurrent handshakes share one load/obtain/renew and are never left hanging.
@@ -180,7 +182,7 @@ var c13Scenarios = []string{"fresh", "stored-valid", "cached-due", "cached-expir
 
 var c13Uniq int
 
-func newC13Env(scenario string) (*c13Env, error) {
+func c13NewEnv(scenario string) (*c13Env, error) {
 	c13Uniq++
 	e := &c13Env{b: doubles.NewMemBackend(), ca: doubles.NewCA("harness CA"), byGid: map[int64]*c13Thread{}}
 	e.names = []string{fmt.Sprintf("n0-%d.c13.example", c13Uniq), fmt.Sprintf("n1-%d.c13.example", c13Uniq)}
@@ -516,7 +518,7 @@ func (e *c13Env) observe(enc *emit.Enc, act c13Action, nBefore int) (c13Seen, er
 }
 
 func c13RunCase(w *emit.Writer, cs *c13Case, desc map[string]any) error {
-	env, err := newC13Env(cs.Scenario)
+	env, err := c13NewEnv(cs.Scenario)
 	if err != nil {
 		return err
 	}
@@ -729,6 +731,25 @@ func runC13(tier string, seed int64, outdir string, replay string) error {
 		acts[len(acts)-1].Outcome = out
 		cs := &c13Case{Scenario: "cached-due-nostore", Threads: 4, Seed: int64(100 + i), Actions: acts}
 		if err := c13RunCase(w, cs, map[string]any{"class": "load-owner-self-wait", "scenario": cs.Scenario, "outcome": out}); err != nil {
+			return err
+		}
+	}
+	// ---- corpus: the witnesses of the fixed finding C13-maintenance-failure-obtain ----
+	// an expired certificate in storage only: handshake 0 loads it and becomes the (foreground) renewal
+	// worker, handshake 1 hits the cached expired certificate and waits for that renewal; the renewal
+	// is denied / the issuer fails / is cancelled. Before the fix handshake 0 went on to
+	// obtainOnDemandCertificate (ObtainCertAsync is a no-op, the bundle exists), loaded the expired
+	// certificate again and waited on the obtain channel it had registered itself, with handshake 1
+	// queued behind it on the load channel, until the 2-minute time-outs.
+	for i, end := range [][]c13Action{
+		{{Kind: "release", T: 0, Allow: &no}},
+		{{Kind: "release", T: 0, Allow: &yes}, {Kind: "release", T: 0}, {Kind: "release", T: 0, Outcome: "fail"}},
+		{{Kind: "release", T: 0, Allow: &yes}, {Kind: "release", T: 0}, {Kind: "release", T: 0, Outcome: "cancel"}},
+	} {
+		acts := []c13Action{{Kind: "arrive", T: 0}, {Kind: "release", T: 0, Allow: &yes}, {Kind: "release", T: 0}, {Kind: "arrive", T: 1}}
+		acts = append(acts, end...)
+		cs := &c13Case{Scenario: "stored-expired", Threads: 3, Seed: int64(200 + i), Actions: acts}
+		if err := c13RunCase(w, cs, map[string]any{"class": "maintenance-failure-obtain", "scenario": cs.Scenario, "variant": i}); err != nil {
 			return err
 		}
 	}
